@@ -210,6 +210,38 @@ fn model_repeat_scope(block: &mut Block) -> usize {
     n
 }
 
+/// bug model for remove_compound_assignment: for `NAME[key] op= value` with a global NAME the key is evaluated into a
+/// temporary first and NAME is read afterwards (twice)
+fn model_compound_global_prefix(block: &mut Block, globals: &std::collections::HashSet<String>) -> usize {
+    let mut n = 0;
+    crate::luaref::walk::map_blocks(block, &mut |blk| {
+        for s in blk.stats.iter_mut() {
+            let replacement = if let Stat::CompoundAssign { op, target: Expr::Index(prefix, key), expr } = &s.stat {
+                match &**prefix {
+                    Expr::Name(name, _) if globals.contains(name) && !is_literal_expr(key) => {
+                        let tmp = "__model_key".to_owned();
+                        let target = Expr::Index(Box::new(Expr::Name(name.clone(), 0)), Box::new(Expr::Name(tmp.clone(), 0)));
+                        Some(Stat::Do(Block {
+                            stats: vec![
+                                StatNode { stat: Stat::Local { names: vec![TypedName { name: tmp, pos: 0, ty: None }], exprs: vec![(**key).clone()], is_const: false }, line: 0, start: 0, end: 0 },
+                                StatNode { stat: Stat::Assign { targets: vec![target.clone()], exprs: vec![Expr::Binary(*op, Box::new(target), Box::new(Expr::Paren(Box::new(expr.clone()))))] }, line: 0, start: 0, end: 0 },
+                            ],
+                        }))
+                    }
+                    _ => None,
+                }
+            } else {
+                None
+            };
+            if let Some(r) = replacement {
+                s.stat = r;
+                n += 1;
+            }
+        }
+    });
+    n
+}
+
 pub fn classify_behaviour(_property: &str, ctx: &FailCtx) -> Option<String> {
     let rule = ctx.first_bad_rule.as_deref().map(rule_name)?;
     let pre = ctx.pre_text.as_deref()?;
@@ -234,6 +266,21 @@ pub fn classify_behaviour(_property: &str, ctx: &FailCtx) -> Option<String> {
         });
         if repaired.same_behaviour(ctx.expected) {
             return Some("sqrt-as-pow-differs-on-negative-zero-and-infinity".to_owned());
+        }
+    }
+    if rule == "remove_compound_assignment" {
+        if let Ok(parsed) = parser::parse(pre.as_bytes(), Mode::Luau) {
+            let globals: std::collections::HashSet<String> = crate::luaref::resolve::resolve(&parsed.block)
+                .into_iter()
+                .filter_map(|o| match o.binding {
+                    crate::luaref::resolve::Binding::Global(n) => Some(n),
+                    _ => None,
+                })
+                .collect();
+            let mut b = parsed.block;
+            if model_compound_global_prefix(&mut b, &globals) > 0 && observe_ast(&b, ctx).same_behaviour(ctx.actual) {
+                return Some("compound-assignment-reads-global-prefix-after-the-key".to_owned());
+            }
         }
     }
     if rule == "remove_interpolated_string" {
